@@ -4,7 +4,7 @@
 //! whatever it returns, NaN or an infinity cannot get past the builtin.
 use super::*;
 
-// @harness id=c06_unary_math_finite props=C06,C01 tier=quick cap=900
+// @harness id=c06_unary_math_finite props=C06,C01:thorough tier=quick cap=900
 // @desc each of std.exp/log/log2/log10/sqrt/sin/cos/tan/asin/acos/atan/deg2rad/rad2deg/floor/ceil/exponent/mantissa, driven at its Rust entry point with any finite argument: no panic, and Ok implies the pushed result is a finite number
 // @bound all finite doubles; one builtin per path selected by a symbolic index (17 builtins); no loops
 // @funcs Evaluator::do_std_exp, do_std_log, do_std_log2, do_std_log10, do_std_sqrt, do_std_sin, do_std_cos, do_std_tan, do_std_asin, do_std_acos, do_std_atan, do_std_deg2rad, do_std_rad2deg, do_std_floor, do_std_ceil, do_std_exponent, do_std_mantissa, Evaluator::check_number_value, Evaluator::expect_std_func_arg_number
@@ -57,7 +57,7 @@ fn c06_unary_math_finite() {
 }
 }
 
-// @harness id=c06_binary_math_finite props=C06,C01 tier=quick cap=900
+// @harness id=c06_binary_math_finite props=C06,C01:thorough tier=quick cap=900
 // @desc std.pow / std.atan2 / std.hypot with any two finite arguments: no panic; Ok implies a finite result
 // @bound all pairs of finite doubles; no loops
 // @funcs Evaluator::do_std_pow, Evaluator::do_std_atan2, Evaluator::do_std_hypot, Evaluator::check_number_value
